@@ -469,6 +469,11 @@ def run(ctx):
                 units += [(stem + '0K',), (stem + '00kg',)]
         elif k[-1].isdigit() and k[:2] in ('JT', 'OT'):
             units += [(k + 'g',), (k + ' g',)]
+        if 'cm' in k:
+            for a, b in (('cm', 'CM'), ('cm', 'Cm'), ('cm', 'cM'), ('cm', ' cm'), ('cm', '.0cm'), ('cm', '0cm')):
+                units.append((k.replace(a, b, 1),))
+            if k.endswith('m') and not k.endswith('cm'):
+                units += [(k[:-1] + 'M',), (k[:-1] + ' m',), (k[:-1] + ('0m' if '.' in k[-5:] else '.00m'),)]
     nreq = list(dict.fromkeys(nreq + units))
     ctx.stats['norm_unit_spellings'] = len(units)
     # spellings with white space inside (between the distance and what follows, before a unit), each asked three times
